@@ -3,7 +3,11 @@ package main
 import (
 	"fmt"
 	"reflect"
+	"sort"
+	"sync"
 	"unsafe"
+
+	v1 "k8s.io/api/core/v1"
 
 	agentapi "volcano.sh/volcano/pkg/agentscheduler/api"
 	agentcache "volcano.sh/volcano/pkg/agentscheduler/cache"
@@ -44,48 +48,106 @@ func addAgentNode(sc *agentcache.SchedulerCache, n sched.NodeSpec) {
 	}
 }
 
-// runAgent: selector 3.  The agent scheduler's cache starts with empty nodes; every task is a
-// pending pod and each call carries the worker's own TaskInfo (bindContext.SchedCtx.Task), with
-// NodeName already set to the chosen node as CheckAndBindPod does (binder.go 112-113).
+// recovered runs an agent-cache handler whose last statement notifies the scheduling queue the mock
+// cache does not have: the nil dereference happens after the cache has been updated and the deferred
+// Unlock has run.
+func recovered(f func()) {
+	defer func() { _ = recover() }()
+	f()
+}
+
+// runAgent: selector 3.  Every call carries the worker's own TaskInfo (bindContext.SchedCtx.Task)
+// with NodeName already set to the chosen node, as CheckAndBindPod does (binder.go 112-113); the
+// pods already on nodes and the events in between go through AddPodToCache / UpdatePodInCache /
+// DeletePodFromCache / AddOrUpdateNode.
 func runAgent(in []int64) ([]int64, []int64) {
 	b := decBind(in)
 	sc := agentcache.NewDefaultMockSchedulerCache("volcano-agent")
 	for _, n := range b.Nodes {
 		addAgentNode(sc, n)
 	}
+	tasks := append([]sched.TaskSpec{}, b.Tasks...)
+	sort.Slice(tasks, func(i, j int) bool { return tasks[i].ID < tasks[j].ID })
 	spec := map[int64]sched.TaskSpec{}
-	for _, t := range b.Tasks {
+	curPod := map[int64]*v1.Pod{}
+	for _, t := range tasks {
 		spec[t.ID] = t
+		curPod[t.ID] = t.Pod()
+		if t.Node != 0 && t.Status != sched.SSucceeded && t.Status != sched.SFailed {
+			p := curPod[t.ID]
+			recovered(func() { sc.AddPodToCache(p) })
+		}
 	}
-	ctxs := make([]*agentapi.BindContext, len(b.Calls))
+	for _, it := range b.Items {
+		if it.Kind == itPodAdd {
+			spec[it.Pod.ID] = it.Pod
+		}
+	}
+	ctxs := make([]*agentapi.BindContext, len(b.Items))
 	index := map[*agentapi.BindContext]int{}
-	for i, c := range b.Calls {
-		ts, ok := spec[c[1]]
+	for i, it := range b.Items {
+		if it.Kind != itBind {
+			continue
+		}
+		ts, ok := spec[it.Bind[1]]
 		if !ok {
 			panic("agent stream: call names a task outside the spec")
 		}
 		ti := api.NewTaskInfo(ts.Pod())
-		ti.NodeName = sched.NodeName(c[2])
+		ti.NodeName = sched.NodeName(it.Bind[2])
 		ctxs[i] = &agentapi.BindContext{SchedCtx: &agentapi.SchedulingContext{Task: ti}, Extensions: map[string]scache.BindContextExtension{}}
 		index[ctxs[i]] = i
 	}
-	order, errs := runConcurrent(len(b.Calls), int(b.Workers), b.Exact,
-		func(i int) error { return sc.AddBindTask(ctxs[i]) },
+	var evMu sync.Mutex
+	step := func(i int) error {
+		it := b.Items[i]
+		switch it.Kind {
+		case itBind:
+			return sc.AddBindTask(ctxs[i])
+		case itNode:
+			o := nodeObject(it.Node)
+			recovered(func() { _ = sc.AddOrUpdateNode(o) })
+		case itTerminating:
+			evMu.Lock()
+			old := curPod[it.Task]
+			nw := terminatingPod(spec[it.Task])
+			curPod[it.Task] = nw
+			evMu.Unlock()
+			recovered(func() { sc.UpdatePodInCache(old, nw) })
+		case itDelete:
+			evMu.Lock()
+			old := curPod[it.Task]
+			evMu.Unlock()
+			recovered(func() { sc.DeletePodFromCache(old) })
+		case itPodAdd:
+			p := it.Pod.Pod()
+			evMu.Lock()
+			curPod[it.Pod.ID] = p
+			evMu.Unlock()
+			recovered(func() { sc.AddPodToCache(p) })
+		}
+		return nil
+	}
+	order, errs := runConcurrent(len(b.Items), int(b.Workers), b.Exact, step,
 		func() []int {
 			out := []int{}
 			for len(sc.BindFlowChannel) > 0 {
 				out = append(out, index[<-sc.BindFlowChannel])
 			}
 			return out
-		})
+		}, func(i int) bool { return b.Items[i].Kind != itBind })
 	for len(sc.BindFlowChannel) > 0 {
 		<-sc.BindFlowChannel
 	}
 	replay := b
-	replay.Calls = nil
+	replay.Items = nil
 	got := []int64{int64(len(order))}
 	for _, i := range order {
-		replay.Calls = append(replay.Calls, b.Calls[i])
+		replay.Items = append(replay.Items, b.Items[i])
+		if b.Items[i].Kind != itBind {
+			got = append(got, 9)
+			continue
+		}
 		cls := errClass(errs[i])
 		if !b.Exact && cls != 0 {
 			cls = 1
@@ -107,26 +169,51 @@ func runAgent(in []int64) ([]int64, []int64) {
 		held = append(held, n, int64(len(tids)))
 		held = append(held, tids...)
 	}
-	lastHeld = held
+	lastLaw = append(replay.finalSpecs().enc(), held...)
 	return replay.enc(), got
 }
 
 func genAgentCase(r *vh.Rng) (bindCase, bool) {
 	var b bindCase
 	nn := r.Range(1, 3)
-	cpu := map[int64]int64{}
+	type free struct{ cpu, mem, pods, gpu int64 }
+	room := map[int64]*free{}
 	for i := 1; i <= nn; i++ {
 		ns := sched.NodeSpec{ID: int64(i), Has: true, CPU: int64(r.Range(2, 8)) * 500, Mem: int64(r.Range(4, 16)) << 20, Pods: int64(r.Range(4, 12))}
 		if r.Chance(1, 2) {
 			ns.GPU = int64(r.Range(1, 3))
 		}
 		b.Nodes = append(b.Nodes, ns)
-		cpu[ns.ID] = ns.CPU
+		room[ns.ID] = &free{ns.CPU, ns.Mem, ns.Pods, ns.GPU}
 	}
 	b.Jobs = []sched.JobSpec{{ID: 1, Queue: 1}}
+	er := r.Fork()
+	withEvents := er.Chance(1, 2)
+	tid := int64(0)
+	if withEvents {
+		// pods already on the nodes, some of them terminating
+		for _, n := range b.Nodes {
+			f := room[n.ID]
+			for k := 0; k < er.Range(0, 3); k++ {
+				ts := sched.TaskSpec{Job: 1, Role: 1, CPU: int64(er.Range(1, 6)) * 250, Mem: int64(er.Range(1, 6)) << 19,
+					Status: vh.Pick(er, []int64{sched.SRunning, sched.SRunning, sched.SBound, sched.SReleasing}), Node: n.ID}
+				if f.cpu < ts.CPU || f.mem < ts.Mem || f.pods < 1 {
+					continue
+				}
+				f.cpu -= ts.CPU
+				f.mem -= ts.Mem
+				f.pods--
+				tid++
+				ts.ID = tid
+				b.Tasks = append(b.Tasks, ts)
+			}
+		}
+	}
+	var pending []sched.TaskSpec
 	np := r.Range(3, 10)
 	for i := 1; i <= np; i++ {
-		ts := sched.TaskSpec{ID: int64(i), Job: 1, Role: 1, Status: sched.SPending}
+		tid++
+		ts := sched.TaskSpec{ID: tid, Job: 1, Role: 1, Status: sched.SPending}
 		switch r.Intn(8) {
 		case 0:
 		case 1:
@@ -139,6 +226,7 @@ func genAgentCase(r *vh.Rng) (bindCase, bool) {
 			}
 		}
 		b.Tasks = append(b.Tasks, ts)
+		pending = append(pending, ts)
 	}
 	b.Workers = int64(r.Range(1, 6))
 	b.Exact = r.Chance(1, 2)
@@ -146,12 +234,12 @@ func genAgentCase(r *vh.Rng) (bindCase, bool) {
 	sum := map[int64]int64{}
 	seen := map[[2]int64]bool{}
 	for i := 0; i < int(b.Workers)*m; i++ {
-		t := vh.Pick(r, b.Tasks)
+		t := vh.Pick(r, pending)
 		c := [3]int64{1, t.ID, int64(r.Range(1, nn))}
 		if r.Chance(1, 20) {
 			c[2] = 9
 		}
-		b.Calls = append(b.Calls, c)
+		b.Items = append(b.Items, item{Kind: itBind, Bind: c})
 		if !seen[[2]int64{c[1], c[2]}] {
 			seen[[2]int64{c[1], c[2]}] = true
 			sum[c[2]] += t.CPU
@@ -159,11 +247,20 @@ func genAgentCase(r *vh.Rng) (bindCase, bool) {
 	}
 	contended := false
 	for nid, s := range sum {
-		if c, ok := cpu[nid]; ok && s > c {
+		if f, ok := room[nid]; ok && s > f.cpu {
 			contended = true
 		}
 	}
-	return b, b.Workers >= 2 && len(b.Calls) >= 3 && contended
+	nt := b.Workers >= 2 && len(b.Items) >= 3 && contended
+	if withEvents {
+		free := map[int64][4]int64{}
+		for id, f := range room {
+			free[id] = [4]int64{f.cpu, f.mem, f.pods, f.gpu}
+		}
+		ev := weaveEvents(er, &b, free, tid, true)
+		nt = b.Workers >= 2 && ev
+	}
+	return b, nt
 }
 
 func genAgent(rng *vh.Rng, n int, emit func(id string, sel int, in []int64, kind string, nontrivial bool, desc any)) {
@@ -171,8 +268,8 @@ func genAgent(rng *vh.Rng, n int, emit func(id string, sel int, in []int64, kind
 	for i := 0; i < k; i++ {
 		r := rng.Fork()
 		b, nt := genAgentCase(r)
-		kind := fmt.Sprintf("bind/agent/exact=%v", b.Exact)
-		desc := map[string]any{"nodes": len(b.Nodes), "tasks": len(b.Tasks), "workers": b.Workers, "calls": len(b.Calls)}
+		kind := fmt.Sprintf("bind/agent/exact=%v/events=%v", b.Exact, b.hasEvents())
+		desc := map[string]any{"nodes": len(b.Nodes), "tasks": len(b.Tasks), "workers": b.Workers, "items": len(b.Items)}
 		emit(fmt.Sprintf("agent-%d", i), 3, b.enc(), kind, nt, desc)
 	}
 }
